@@ -87,7 +87,9 @@ macro_rules! impl_binop {
         impl<'a, 'b, const p: I> $trait<&'b FF<p>> for &'a FF<p> {
             type Output = FF<p>;
             fn $method(self, rhs: &'b FF<p>) -> Self::Output {
-                FF::new(self.0.$method(&rhs.0))
+                // compute in i64: representatives are < p <= i32::MAX.
+                let r = (self.0 as i64).$method(rhs.0 as i64).rem_euclid(p as i64);
+                FF::new(r as I)
             }
         }
     }
